@@ -460,7 +460,7 @@ func (st *Runtime) executeList(list *ListNode) (returnValue reflect.Value) {
 			if node.Pipe != nil {
 				v, safeWriter := st.evalPipelineExpression(node.Pipe)
 				if !safeWriter && v.IsValid() {
-					if v.Type().Implements(rendererType) {
+					if v.Type().Implements(rendererType) && !(v.Kind() == reflect.Interface && v.IsNil()) {
 						v.Interface().(Renderer).Render(st)
 					} else {
 						_, err := fastprinter.PrintValue(st.escapeeWriter, v)
